@@ -4,7 +4,7 @@
 #include "rational.h"
 #include <string>
 #include <istream>
-#include <cmath>
+#include <stdexcept>
 
 #define BOOL_KEYWORD "bool"
 #define INT_KEYWORD "int"
@@ -160,17 +160,35 @@ namespace riddle
       return tk;
     }
 
-    token *mk_integer_token(const std::string &str) noexcept
+    smt::I to_integer(const std::string &str)
     {
-      token *tk = new int_token(start_line, start_pos, end_line, end_pos, static_cast<smt::I>(std::stol(str)));
+      try
+      {
+        return static_cast<smt::I>(std::stol(str));
+      }
+      catch (const std::out_of_range &)
+      {
+        error("numeric literal out of range..");
+        return 0;
+      }
+    }
+
+    token *mk_integer_token(const std::string &str)
+    {
+      token *tk = new int_token(start_line, start_pos, end_line, end_pos, to_integer(str));
       start_line = end_line;
       start_pos = end_pos;
       return tk;
     }
 
-    token *mk_rational_token(const std::string &intgr, const std::string &dec) noexcept
+    token *mk_rational_token(const std::string &intgr, const std::string &dec)
     {
-      token *tk = new real_token(start_line, start_pos, end_line, end_pos, smt::rational(static_cast<smt::I>(std::stol(intgr + dec)), static_cast<smt::I>(std::pow(10, dec.size()))));
+      if (dec.size() > 18) // 10^19 does not fit into smt::I..
+        error("numeric literal out of range..");
+      smt::I den = 1;
+      for (size_t i = 0; i < dec.size(); ++i)
+        den *= 10;
+      token *tk = new real_token(start_line, start_pos, end_line, end_pos, smt::rational(to_integer(intgr + dec), den));
       start_line = end_line;
       start_pos = end_pos;
       return tk;
